@@ -59,6 +59,8 @@ func init() {
 		"hash/crc32.ChecksumIEEE": intrCRC,
 		"time.Now":         intrHavocResult,
 		"encoding/binary.Read": intrBinaryRead,
+		"github.com/dgraph-io/badger/v3.DB.Update": intrBadgerTxn,
+		"github.com/dgraph-io/badger/v3.DB.View":   intrBadgerTxn,
 		"time.Since":       intrHavocResult,
 		"runtime.GOMAXPROCS": intrHavocResult,
 	}
@@ -207,7 +209,11 @@ func (vc *VC) call(fr *Frame, st *State, c *ssa.CallCommon, ins ssa.Instruction,
 		return vc.applyContract(fr, st, callee, con, args, pos, what)
 	}
 	if callee.Blocks != nil && fr.depth < maxInlineDepth && vc.canInline(callee) {
-		res, out := vc.execFunc(callee, args, free, st, fr.depth+1, vc.eng.cs.Funcs[key], false)
+		ccon := vc.eng.cs.Funcs[key]
+		if ccon == nil && isNestedIn(callee, fr.fn) {
+			ccon = fr.con // anchors (assert at / ghostset at) of the enclosing function reach into its closures
+		}
+		res, out := vc.execFunc(callee, args, free, st, fr.depth+1, ccon, false)
 		*st = *out
 		return packResults(callee.Signature, res)
 	}
@@ -715,4 +721,51 @@ func arrayAsSlice(v Val) Val {
 		return Val{K: KSlice, T: types.NewSlice(at.Elem()), Sl: [4]string{v.L.Ref, i64(0), n, n}}
 	}
 	return v
+}
+
+func isNestedIn(f, outer *ssa.Function) bool {
+	for p := f.Parent(); p != nil; p = p.Parent() {
+		if p == outer {
+			return true
+		}
+	}
+	return false
+}
+
+// (*badger.DB).Update(fn) / View(fn): trusted model of the embedded store's transaction API.
+// fn is called exactly once with a fresh transaction; everything fn does through that
+// transaction becomes durable atomically iff fn returns nil and the commit succeeds. The ghost
+// counter `txns` (if declared) counts transactions started.
+func intrBadgerTxn(vc *VC, fr *Frame, st *State, args []Val, c *ssa.CallCommon, pos token.Position) Val {
+	errT := c.Signature().Results().At(0).Type()
+	cl := args[len(args)-1]
+	if cl.Clo == nil {
+		vc.note("badger transaction with a non-literal function: heap havocked")
+		vc.havocAllHeap(st)
+		return vc.havocResults(st, c.Signature())
+	}
+	fn := cl.Clo.Fn.(*ssa.Function)
+	txnT := fn.Signature.Params().At(0).Type()
+	txn := ptrFromRef(txnT, vc.alloc(st, "txn"))
+	if g, ok := st.ghost["txns"]; ok && g.K == KScalar {
+		st.ghost["txns"] = Val{K: KScalar, T: g.T, S: bvAdd(g.S, bvInt(1, 64))}
+	}
+	var ccon *Contract
+	if isNestedIn(fn, fr.fn) || fn.Parent() == fr.fn {
+		ccon = fr.con
+	}
+	res, out := vc.execFunc(fn, []Val{txn}, cl.Clo.Bindings, st, fr.depth+1, ccon, false)
+	*st = *out
+	ferr := res[0]
+	// commit may fail even if fn succeeded
+	ctag := vc.sc.fresh("commiterr", sortRef)
+	vc.sc.assert(sx(">=", ctag, "0"))
+	cref := vc.alloc(st, "err")
+	if ferr.K != KIface {
+		return vc.havocResults(st, c.Signature())
+	}
+	if g, ok := st.ghost["committed"]; ok && g.K == KScalar {
+		st.ghost["committed"] = boolVal(and(eq(ferr.If[0], "0"), eq(ctag, "0")))
+	}
+	return Val{K: KIface, T: errT, If: [2]string{ite(eq(ferr.If[0], "0"), ctag, ferr.If[0]), ite(eq(ferr.If[0], "0"), ite(eq(ctag, "0"), "0", cref), ferr.If[1])}}
 }
